@@ -41,9 +41,14 @@ META["text"] += ' R5 also: the ONEAudit estimate places one-vote and two-vote er
 META["text"] += ' R1 also: the pilot data are used as given (not clipped or rounded first). R4 also: no assumed rate is defaulted through `or`.'
 META["text"] += ' R2 also: no estimate leaves sample_size before the hypothetical population is built (no shortcut on the data in hand).'
 META["text"] += ' R6 also: the RAIRE helper keeps no memo between calls.'
+META["text"] += ' (R8, N, frame condition on arguments) planning a sample size reads the assertions and the sample so far: every function in scope changes the objects it is handed only in the ways confirmed for it (aud.ARG_EFFECTS); references are followed through aliases, elements, attributes, loop variables, .get/.items/.values and np.asarray, resolved by the bindings that reach the use.'
 
 
 def run(chk):
+    from .. import aud as _aud8
+    _aud8.argument_effects(chk, 'C16.R8', 'shangrla/core/Audit.py', 'planning a sample size reads the assertions and the sample so far', only=lambda q: q.startswith('Assertion.'))
+    _aud8.argument_effects(chk, 'C16.R8', 'shangrla/core/Audit.py', 'planning a sample size reads the assertions and the sample so far', only=lambda q: q.startswith('Contest.'))
+    _aud8.argument_effects(chk, 'C16.R8', 'shangrla/core/Audit.py', 'planning a sample size reads the assertions and the sample so far', only=lambda q: q.startswith('Audit.'))
     chk.explain("R1 tile callee; R2 first-crossing idiom (term identity) in both branches; R3 prefix simulations start with the data; "
                 "R4 assumed data per audit type + every callee resolves; R5 maxima; R6 sibling constants of the RAIRE helper.")
     chk.trust("np.tile / np.resize repeat the sequence; np.argmax of a boolean array is the first True", "symx term identity",
